@@ -46,6 +46,12 @@ theorem getLast?_getD_cons {α : Type} (b : α) (l : List α) (a v : α) :
   | none => simp [List.getLast?_eq_none_iff] at h
   | some x => rfl
 
+@[simp] theorem isNull_null : (Val.null : Val ν).isNull = true := rfl
+@[simp] theorem isNull_int (i : Int) : (Val.int i : Val ν).isNull = false := rfl
+@[simp] theorem isNull_flt (x : ν) : (Val.flt x : Val ν).isNull = false := rfl
+@[simp] theorem isNull_str (s : Str) : (Val.str s : Val ν).isNull = false := rfl
+@[simp] theorem isNull_bool (b : Bool) : (Val.bool b : Val ν).isNull = false := rfl
+
 /-! ### sum -/
 
 theorem sum_addNum_fold (xs : List ν) (z : ν) (h : Bool) :
@@ -120,25 +126,25 @@ theorem maxNum_fold_started (xs : List ν) (m : ν) :
 
 theorem min_run (e : Env ν) (l : List (Val ν)) :
     (l.foldl (ExtSt.addMin e) ExtSt.new).result
-      = (match least (nums e l) with | none => Val.null | some m => Val.flt m) := by
+      = optNum (least (nums e l)) := by
   rw [min_fold]
   cases h : nums e l with
-  | nil => simp [ExtSt.new, ExtSt.result, least]
+  | nil => simp [ExtSt.new, ExtSt.result, least, optNum]
   | cons x xs =>
     simp only [List.foldl_cons, ExtSt.new, ExtSt.minNum, Bool.true_or, if_true, least]
     rw [minNum_fold_started]
-    simp [ExtSt.result]
+    simp [ExtSt.result, optNum]
 
 theorem max_run (e : Env ν) (l : List (Val ν)) :
     (l.foldl (ExtSt.addMax e) ExtSt.new).result
-      = (match greatest (nums e l) with | none => Val.null | some m => Val.flt m) := by
+      = optNum (greatest (nums e l)) := by
   rw [max_fold]
   cases h : nums e l with
-  | nil => simp [ExtSt.new, ExtSt.result, greatest]
+  | nil => simp [ExtSt.new, ExtSt.result, greatest, optNum]
   | cons x xs =>
     simp only [List.foldl_cons, ExtSt.new, ExtSt.maxNum, Bool.true_or, if_true, greatest]
     rw [maxNum_fold_started]
-    simp [ExtSt.result]
+    simp [ExtSt.result, optNum]
 
 /-! ### count -/
 
